@@ -1,2 +1,49 @@
-(* props/C02.v — placeholder until the round-trip theorems are proved; keeps the build target. *)
-From Prophy Require Import Bytes Schema Layout Wire PyDecode.
+(* props/C02.v — Python decode inverts encode and consumes exactly the message. *)
+From Coq Require Import ZArith List Bool Lia.
+From Prophy Require Import Bytes Schema Layout Wire Src PyStatics PyEncode PyDecode
+  Arith SpecAlign Views SpecLen PyEncodeFacts PyRoundtrip.
+Import ListNotations.
+Local Open Scope Z_scope.
+
+(* For every legal message type WITHOUT a greedy tail, every well-typed value whose counted
+   arrays stay within the decoder's guard (at most 65536 elements each) and both byte orders:
+   encoding succeeds with the canonical bytes, decoding those bytes into a fresh message
+   succeeds, consumes exactly the input and yields the same value — hence re-encoding gives
+   the same bytes. *)
+Theorem C02_roundtrip_no_greedy_tail :
+  forall (e : endian) (fs : list field) (v : value),
+    legal (TStruct fs) = true -> stiffness (TStruct fs) <> Unlimited ->
+    wt (TStruct fs) v = true -> within_guard (TStruct fs) v = true ->
+    exists b, py_enc e (TStruct fs) v = Ok b /\ py_decode e (TStruct fs) b = Ok (v, len b).
+Proof.
+  intros e fs v Hl Hu Hw Hg. exists (wire e (TStruct fs) v). split.
+  - apply py_enc_canonical; [reflexivity|exact Hl|exact Hw].
+  - apply py_decode_roundtrip; assumption.
+Qed.
+Print Assumptions C02_roundtrip_no_greedy_tail.
+
+(* the same at any position inside a larger buffer, for every nested composite (the form the
+   induction uses): what follows the message is not touched unless decoding is terminal *)
+Theorem C02_roundtrip_nested :
+  forall t, legal t = true -> is_comp t = true -> stiffness t <> Unlimited ->
+  forall e fuel v data pre post terminal,
+    data = pre ++ render e (layout t v (len pre)) ++ post ->
+    wt t v = true -> within_guard t v = true ->
+    len pre mod align t = 0 -> (terminal = true -> post = []) ->
+    py_dec e data fuel t (len pre) terminal = Ok (v, segslen (layout t v (len pre))).
+Proof. exact py_dec_roundtrip. Qed.
+Print Assumptions C02_roundtrip_nested.
+
+(* Not proved (decided by the differential run and the spec oracle only):
+   the same statement for messages WITH a greedy tail that ends aligned
+   (greedy_tail_aligned t v = true), the documented exception being tails that do not. *)
+
+Definition ex_t : ty := TStruct
+  [(FPlain, TScalar U8); (FOpt, TScalar U64); (FPlain, TScalar U32); (FBound 2%nat, TStruct [(FPlain, TScalar I16); (FPlain, TUnion [(7, TScalar U8); (9, TScalar U64)])]);
+   (FPlain, TScalar U32); (FLimited 3 4%nat, TByte)].
+Definition ex_v : value := VStruct
+  [VInt 200; VSome (VInt 5); VInt 2; VList [VStruct [VInt (-2); VUnion 1 (VInt 77)]; VStruct [VInt 9; VUnion 0 (VInt 3)]]; VInt 2; VList [VInt 65; VInt 66]].
+Example C02_hypotheses_inhabited :
+  legal ex_t = true /\ wt ex_t ex_v = true /\ within_guard ex_t ex_v = true /\ stiffness ex_t = Dynamic /\
+  py_decode BE ex_t (wire BE ex_t ex_v) = Ok (ex_v, len (wire BE ex_t ex_v)).
+Proof. vm_compute. repeat split; reflexivity. Qed.
